@@ -271,7 +271,7 @@ func splitLabel(s string) (string, string) {
 	return "", s
 }
 
-var loopRe = regexp.MustCompile(`^(\d+)\s*(\(([^)]*)\))?\s*:\s*(invariant|decreases|unroll)\s+(.*)$`)
+var loopRe = regexp.MustCompile(`^(\d+)\s*(\(([^)]*)\))?\s*:\s*(invariant|decreases!?|unroll)\s+(.*)$`)
 
 func (c *Contract) parseLoop(text, file string, line int) error {
 	m := loopRe.FindStringSubmatch(strings.TrimSpace(text))
@@ -294,8 +294,11 @@ func (c *Contract) parseLoop(text, file string, line int) error {
 	case "invariant":
 		lab, ex := splitLabel(m[5])
 		ls.Invs = append(ls.Invs, Clause{Kind: "invariant", Expr: ex, Label: lab, File: file, Line: line})
-	case "decreases":
+	case "decreases", "decreases!":
 		ls.Decr = &Clause{Kind: "decreases", Expr: m[5], File: file, Line: line}
+		if m[4] == "decreases!" {
+			ls.Decr.Label = "!"
+		}
 	case "unroll":
 		k, err := strconv.Atoi(strings.TrimSpace(m[5]))
 		if err != nil {
